@@ -25,6 +25,117 @@ type c10Case struct {
 	Raw  string `json:"raw_proof_hex"` // A.Raw || B.Raw || C.Raw (256 bytes)
 	Mode string `json:"mode,omitempty"`
 	Hash string `json:"hash,omitempty"`
+	// kind "history": operations on ONE prover.Proof value: S<i> assign proof i to its Proof field,
+	// U<i> decode the (independently rendered) JSON of proof i into it, M marshal it
+	Raws []string `json:"raw_proofs_hex,omitempty"`
+	Ops  []string `json:"ops,omitempty"`
+}
+
+// refProofJSON renders the documented JSON form from the eight coordinates (independent of the repository).
+func refProofJSON(c [8]*big.Int) []byte {
+	h := func(i int) string { return `"0x` + c[i].Text(16) + `"` }
+	return []byte(`{"ar":[` + h(0) + `,` + h(1) + `],"bs":[[` + h(2) + `,` + h(3) + `],[` + h(4) + `,` + h(5) + `]],"krs":[` + h(6) + `,` + h(7) + `]}`)
+}
+
+// c10History runs an operation history on one value; the value must always behave as the proof it holds.
+func c10History(cs *c10Case) (key, msg string, err error) {
+	defer func() {
+		if r := recover(); r != nil {
+			key, msg, err = "panic", fmt.Sprintf("proof JSON code panics: %v", r), nil
+		}
+	}()
+	var gps []groth16.Proof
+	var coords [][8]*big.Int
+	for _, rs := range cs.Raws {
+		raw, err := hex.DecodeString(rs)
+		if err != nil {
+			return "", "", err
+		}
+		gp := groth16.NewProof(ecc.BN254)
+		if _, err := gp.ReadFrom(bytes.NewReader(raw)); err != nil {
+			return "", "", fmt.Errorf("cannot materialise proof: %v", err)
+		}
+		co, err := proofCoords(gp)
+		if err != nil {
+			return "", "", err
+		}
+		gps = append(gps, gp)
+		coords = append(coords, co)
+	}
+	var v prover.Proof
+	held := -1
+	for step, op := range cs.Ops {
+		where := fmt.Sprintf("after %v (step %d)", cs.Ops[:step+1], step)
+		switch op[0] {
+		case 'S':
+			held = int(op[1] - '0')
+			v.Proof = gps[held]
+		case 'U':
+			i := int(op[1] - '0')
+			if e := json.Unmarshal(refProofJSON(coords[i]), &v); e != nil {
+				return "history-decode", fmt.Sprintf("decoding a proof into a value that was used before fails %s: %v", where, e), nil
+			}
+			held = i
+			got, err := proofCoords(v.Proof)
+			if err != nil {
+				return "", "", err
+			}
+			for k := range got {
+				if got[k].Cmp(coords[i][k]) != 0 {
+					return "history-decode", fmt.Sprintf("value does not hold the decoded proof %s: %s is 0x%s, document says 0x%s", where, slotNames[k], got[k].Text(16), coords[i][k].Text(16)), nil
+				}
+			}
+		case 'M':
+			js, e := json.Marshal(&v)
+			if e != nil {
+				return "history-marshal", fmt.Sprintf("MarshalJSON fails %s: %v", where, e), nil
+			}
+			var back prover.Proof
+			if e := json.Unmarshal(js, &back); e != nil {
+				return "history-marshal", fmt.Sprintf("JSON produced %s does not decode: %v", where, e), nil
+			}
+			got, err := proofCoords(back.Proof)
+			if err != nil {
+				return "", "", err
+			}
+			for k := range got {
+				if got[k].Cmp(coords[held][k]) != 0 {
+					return "history-marshal", fmt.Sprintf("JSON produced %s is not the JSON of the proof the value holds: %s is 0x%s, held proof has 0x%s", where, slotNames[k], got[k].Text(16), coords[held][k].Text(16)), nil
+				}
+			}
+		}
+	}
+	return "", "", nil
+}
+
+// c10Histories: every operation sequence of length <= maxLen over {S0,S1,S2,U0,U1,U2,M} that starts by
+// giving the value a proof and contains at least one M.
+func c10Histories(raws []string, maxLen int) []c10Case {
+	alpha := []string{"M", "S0", "U0", "S1", "U1", "S2", "U2"}
+	var out []c10Case
+	var rec func(ops []string)
+	rec = func(ops []string) {
+		if len(ops) >= 2 {
+			hasM := false
+			for _, o := range ops {
+				hasM = hasM || o == "M"
+			}
+			if hasM && ops[len(ops)-1] == "M" {
+				out = append(out, c10Case{Kind: "history", Raws: raws, Ops: append([]string{}, ops...)})
+			}
+		}
+		if len(ops) == maxLen {
+			return
+		}
+		for _, a := range alpha {
+			if len(ops) == 0 && a == "M" {
+				continue
+			}
+			rec(append(ops, a))
+		}
+	}
+	rec(nil)
+	return out
 }
 
 func init() {
@@ -86,6 +197,9 @@ func shortSlots(c [8]*big.Int) string {
 }
 
 func c10Eval(cs *c10Case) (key, msg string, err error) {
+	if cs.Kind == "history" {
+		return c10History(cs)
+	}
 	defer func() {
 		if r := recover(); r != nil {
 			key, msg, err = "panic", fmt.Sprintf("proof JSON code panics: %v", r), nil
@@ -288,6 +402,28 @@ func c10Body(c *ev.Ctx) {
 		}
 	}
 	c.Sample(cases[0])
+	// ---- histories on one value (non-initial states of a prover.Proof) ------------
+	{
+		raws := []string{cases[0].Raw, cases[len(cases)/2].Raw, cases[len(cases)-1].Raw}
+		ml := 4
+		if !quick {
+			ml = 5
+		}
+		hs := c10Histories(raws, ml)
+		for i := range hs {
+			key, msg, err := c10Eval(&hs[i])
+			if err != nil {
+				c.HarnessError("%v", err)
+			}
+			evals++
+			if msg != "" {
+				c.Violation(key, msg, hs[i])
+				break
+			}
+		}
+		c.Set("value_histories", int64(len(hs)))
+		c.Logf("histories on one Proof value (assign / decode-into / marshal, length <= %d): %d", ml, len(hs))
+	}
 	// ---- real proofs ------------------------------------------------------------
 	modes := []string{"deletion"}
 	if !quick {
